@@ -749,6 +749,34 @@ func (r *runner) predicatePhase(rng *rand.Rand, n int, when string) {
 				r.checkCondListing(v, tree, leaves, want, pc)
 			}
 		}
+		// a measurement whose tag values are shared by more series than one index row
+		// holds: listings restricted to ONE series taken from anywhere in the id range
+		// (the rows of a shared value are scanned one after the other)
+		if len(v.Series) > 64 {
+			for k := 0; k < 6; k++ {
+				pos := (len(v.Series) - 1) * k / 5
+				if k == 5 {
+					pos = rng.IntN(len(v.Series))
+				}
+				s := &r.sh.u[v.Series[pos]]
+				if len(s.Tags) == 0 {
+					continue
+				}
+				// the tag of the series with the longest value is the most selective one here
+				best := 0
+				for i := range s.Tags {
+					if len(s.Tags[i].V) > len(s.Tags[best].V) {
+						best = i
+					}
+				}
+				one := []Leaf{{Key: s.Tags[best].K, Op: "=", Val: s.Tags[best].V, Shape: "one-series-of-a-wide-measurement"}}
+				o := r.checkLeaf(vc, one, 0, when)
+				if !o.bad {
+					r.checkCondListing(v, &Pred{Kind: "leaf", Leaf: 0}, one, o.want, &predCase{M: v.M, Leaves: one})
+					r.c.Count("listings-restricted-to-one-series-of-a-wide-measurement", 1)
+				}
+			}
+		}
 	}
 }
 
